@@ -381,6 +381,7 @@ func streamDrive(args []string) int {
 	maxBuf := fs.Int("maxbuf", 4, "DefaultMaxBufferSize")
 	types := fs.Bool("types", false, "exercise Set/GetDataType instead of data")
 	fc := fs.Bool("forceclose", false, "allow ForceClose")
+	storm := fs.Bool("storm", false, "every trace: three writers declare different types at the same instant while two readers ask for the type")
 	fs.Parse(args)
 	verifhook.Install(&verifhook.Hooks{Gate: driveGate, Emit: driveEmit})
 	w, err := newNDWriter(*out)
@@ -399,7 +400,11 @@ func streamDrive(args []string) int {
 	for t := 1; t <= *num; t++ {
 		rec := &recorder{t: t}
 		rec.add("reset", 0, "", nil, nil)
-		runOneStreamTrace(rec, rand.New(rand.NewSource(master.Int63())), *types, *fc)
+		if *storm {
+			runTypeStorm(rec, rand.New(rand.NewSource(master.Int63())))
+		} else {
+			runOneStreamTrace(rec, rand.New(rand.NewSource(master.Int63())), *types, *fc)
+		}
 		rec.mu.Lock()
 		for _, e := range rec.evs {
 			w.Write(e)
@@ -412,6 +417,62 @@ func streamDrive(args []string) int {
 		}
 	}
 	return 0
+}
+
+// runTypeStorm: the writers of a pipe all declare a (different) data type as simultaneously as goroutines
+// can, readers ask for the type meanwhile (C02: the first declaration wins and never changes).
+func runTypeStorm(rec *recorder, rng *rand.Rand) {
+	s := streams.NewStdin()
+	var wg sync.WaitGroup
+	start := make(chan struct{})
+	main := &driveActor{rec: rec, id: 0, rng: rand.New(rand.NewSource(rng.Int63()))}
+	g := goid()
+	driveActors.Store(g, main)
+	for wi := 1; wi <= 3; wi++ {
+		main.id = wi
+		rec.add("call.open", wi, "", nil, nil)
+		s.Open()
+	}
+	driveActors.Delete(g)
+	names := []string{"a", "b", "json"}
+	rng.Shuffle(len(names), func(i, j int) { names[i], names[j] = names[j], names[i] })
+	for wi := 1; wi <= 3; wi++ {
+		wid := wi
+		ty := names[wi-1]
+		wg.Add(1)
+		go func() {
+			defer wg.Done()
+			da := &driveActor{rec: rec, id: wid, rng: rand.New(rand.NewSource(int64(wid)))}
+			gg := goid()
+			driveActors.Store(gg, da)
+			defer driveActors.Delete(gg)
+			<-start
+			rec.add("call.sdt", wid, ty, nil, nil)
+			s.SetDataType(ty)
+			rec.add("ret.sdt", wid, ty, nil, nil)
+			rec.add("call.close", wid, "", nil, nil)
+			s.Close()
+		}()
+	}
+	for _, rid := range []int{5, 6} {
+		rid := rid
+		wg.Add(1)
+		go func() {
+			defer wg.Done()
+			da := &driveActor{rec: rec, id: rid, rng: rand.New(rand.NewSource(int64(rid)))}
+			gg := goid()
+			driveActors.Store(gg, da)
+			defer driveActors.Delete(gg)
+			<-start
+			rec.add("call.gdt", rid, "", nil, nil)
+			dt := s.GetDataType()
+			rec.add("ret.gdt", rid, dt, nil, nil)
+		}()
+	}
+	close(start)
+	wg.Wait()
+	bw, br := s.Stats()
+	rec.add("stats", 0, "", []int64{int64(bw), int64(br)}, nil)
 }
 
 func runOneStreamTrace(rec *recorder, rng *rand.Rand, types, fc bool) {
